@@ -30,7 +30,15 @@ def showInt (i : Int) : List UInt8 :=
 def readInt (bs : List UInt8) : Option Int :=
   match bs with
   | [] => none
-  | b :: rest => if b = 0x2d then (VT.readNat rest).map (fun n => -(n : Int)) else (VT.readNat bs).map (fun n => (n : Int))
+  | b :: rest =>
+    if b = 0x2d then
+      match VT.readNat rest with
+      | some n => some (-(Int.ofNat n))
+      | none => none
+    else
+      match VT.readNat (b :: rest) with
+      | some n => some (Int.ofNat n)
+      | none => none
 
 /-- `ESC [` + body. -/
 def csi (body : List UInt8) : List UInt8 := 0x1b :: 0x5b :: body
@@ -290,6 +298,28 @@ structure WF (vt : VTState) : Prop where
 /-- The probed DECSLRM capability is truthful: a terminal that answered the DECRQM probe positively has DECLRMM
     set (start-up sends `CSI ? 69 h` before asking). -/
 def CapsOK (caps : Caps) (vt : VTState) : Prop := caps.slrm = true → vt.declrmm = true
+
+/-- Everything except grid, cursor and pending wrap is as before (size, margins, DECLRMM, rendering attributes,
+    tokenizer state). -/
+def sameModes (vt vt' : VTState) : Prop :=
+  vt'.lines = vt.lines ∧ vt'.cols = vt.cols ∧ vt'.top = vt.top ∧ vt'.bottom = vt.bottom ∧ vt'.left = vt.left ∧
+  vt'.right = vt.right ∧ vt'.declrmm = vt.declrmm ∧ vt'.bg = vt.bg ∧ vt'.rv = vt.rv ∧ vt'.ps = vt.ps
+
+/-- `erasech count moveend` took the screen from `vt` to `vt'`: exactly `count` cells from the cursor are blank with
+    the current background, nothing else changed, and the cursor is where `moveend` demands (`YES` ending exactly at
+    the right edge asks for a column that is not on the screen: the cursor is then on the last column). -/
+def EraseOK (count : Int) (me : MoveEnd) (vt vt' : VTState) : Prop :=
+  sameModes vt vt' ∧ vt'.grid = eraseGrid count vt ∧ vt'.row = vt.row ∧
+  (me = .no → vt'.col = vt.col ∧ vt'.pendingWrap = false) ∧
+  (me = .yes → (vt.col + count < vt.cols → vt'.col = vt.col + count ∧ vt'.pendingWrap = false) ∧
+               (vt.col + count = vt.cols → vt'.col = vt.cols - 1))
+
+/-- A successful `scrollrect` took the screen from `vt` to `vt'`: the cells of the rectangle moved by the offsets,
+    vacated cells blank, nothing outside touched, margins (and everything else) as before; the cursor is somewhere
+    on the screen. -/
+def ScrollOK (rect : Rect) (downward rightward : Int) (vt vt' : VTState) : Prop :=
+  sameModes vt vt' ∧ vt'.grid = scrollGrid rect downward rightward vt ∧
+  0 ≤ vt'.row ∧ vt'.row < vt.lines ∧ 0 ≤ vt'.col ∧ vt'.col < vt.cols
 
 /-- Margins are the full screen. -/
 def marginsReset (vt : VTState) : Prop :=
